@@ -15,6 +15,7 @@ import Lattigo.Model.Bootstrap
   * `layout res= s2c= c2s= cosd= sinc= deg= k= da= inv= rsv= logp=`
         → `qCount,pCount,s2cLevelQ,mod1LevelQ,c2sLevelQ,mod1Depth,checks`
   * `needed res= s2c= c2s= m1= rsv= logp=` → `name/minLevelQ/levelP;…` per key kind (`*` = any LevelP)
+  * `scaleconst q0= evalmod= ratio= logscale= k= ci=` → `round(log2 Q0),-log2 qDiv,log2 ScalingFactor,log2 StCScaling,C2SScaling num/den`
   * `stages res= s2c= c2s= m1= rsv=` → levels after ModUp, CoeffsToSlots, EvalMod, SlotsToCoeffs
   * `output res= s2c= c2s= m1= rsv= iter= logscale=` → `level,scale`
   * `probe …` → `holds`
@@ -120,6 +121,13 @@ def handle (toks : List String) : String :=
             (match neededLevelP s n with | some lp => toString lp | none => "*"))
       | none => badOp
     | none => badOp
+  | "scaleconst" :: rest =>
+    match natArg rest "q0", natArg rest "evalmod", natArg rest "ratio", natArg rest "logscale", natArg rest "k", boolArg rest "ci" with
+    | some q0, some em, some r, some ls, some k, some ci =>
+      let l : ScaleLit := { q0 := q0, evalModLogScale := em, logMessageRatio := r, logDefaultScale := ls, k := k, conjInv := ci }
+      showVec [roundLog2 q0, l.qDivNegLog, em] ++ "," ++ toString l.s2cScalingLog ++ "," ++
+        toString l.c2sScaling.1 ++ "/" ++ toString l.c2sScaling.2
+    | _, _, _, _, _, _ => badOp
   | "stages" :: rest =>
     match natArg rest "m1" with
     | some m1 =>
